@@ -51,12 +51,20 @@ Definition fnames (d : decls) : list name := map fst (d_funcs d).
 Fixpoint mem (n : name) (l : list name) : bool :=
   match l with [] => false | x :: tl => Nat.eqb n x || mem n tl end.
 
-Definition bound (d : decls) (k : ns) (n : name) : bool :=
+(** rule names are per ruleset (lib.rs add_rule: `rules.entry(rule.name)` inside the ruleset);
+    the ruleset of a rule is the head of its auxiliary data *)
+Fixpoint rule_mem (n : name) (rs : nat) (l : list (name * list nat)) : bool :=
+  match l with
+  | [] => false
+  | (m, a) :: tl => (Nat.eqb n m && Nat.eqb rs (nth 0 a 0)) || rule_mem n rs tl
+  end.
+
+Definition bound (d : decls) (k : ns) (n : name) (aux : list nat) : bool :=
   match k with
   | NSort => mem n (d_sorts d)
   | NFunc => mem n (fnames d)
   | NRuleset => mem n (d_rulesets d)
-  | NRule => mem n (map fst (d_rules d))
+  | NRule => rule_mem n (nth 0 aux 0) (d_rules d)
   | NGlobal => mem n (d_globals d)
   end.
 
@@ -161,7 +169,7 @@ Definition step (c : cmd) (s : sess) (sh : shared) : sess * shared * out :=
           (mkSess (mkEg (e_decls p) (e_db p) (e_tabs p) (e_gensym e) (e_report e)) st, sh, OOk)
       end
   | CDecl k n aux =>
-      if bound (e_decls e) k n || negb (decl_extra (e_decls e) k n aux) then
+      if bound (e_decls e) k n aux || negb (decl_extra (e_decls e) k n aux) then
         (set_cur s (mkEg (reject_effect (e_decls e) k n aux) (e_db e) (e_tabs e) (e_gensym e) (e_report e)),
          sh, OErr EDecl)
       else
